@@ -11,5 +11,5 @@ def generatedImportSets : List (List String) := [
   ["\"encoding/json\"", "\"github.com/koykov/inspector\"", "\"github.com/koykov/inspector/testobj\""],
   ["\"encoding/json\"", "\"github.com/koykov/inspector\"", "\"github.com/koykov/inspector/testobj\"", "\"strconv\""]
 ]
-def generatedFilesScanned : Nat := 1812
+def generatedFilesScanned : Nat := 488
 end Inspector
